@@ -879,6 +879,141 @@ theorem stepCloneUnwind_inv {s : St} (hI : Inv s) (h : Nat) :
     · simp only [stepCloneUnwind, hg, hu]
       exact stepClone_inv hI h
 
+/-! ## the heap functions never touch the caller's value table -/
+
+theorem ownedIntoParts_vals (s : St) (c : Content) (cap : Nat) : (ownedIntoParts s c cap).1.vals = s.vals := by
+  simp only [ownedIntoParts, allocVec]; split <;> rfl
+
+theorem fromOwned_vals {s s1 : St} {c : Content} {cap : Nat} {v : CowVal}
+    (h : fromOwned s c cap = .ok (s1, v)) : s1.vals = s.vals := by
+  unfold fromOwned at h
+  by_cases h1 : cap < c.length
+  · simp [h1] at h
+  · by_cases h2 : usizeMax < cap
+    · simp [h1, h2] at h
+    · by_cases h3 : cap = usizeMax
+      · simp [h1, h2, h3, ownedIntoParts] at h
+        split at h <;> simp at h
+      · simp [h1, h2, h3, ownedIntoParts] at h
+        rw [← h.1]; simp only [allocVec]; split <;> rfl
+
+theorem cloneFromParts_vals {s s1 : St} {v v' : CowVal}
+    (h : cloneFromParts s v = .ok (s1, v')) : s1.vals = s.vals := by
+  unfold cloneFromParts at h
+  split at h
+  · simp at h; rw [h.1]
+  · cases hr : readPtr s v.ptr v.len with
+    | error e => simp [hr, bind, Except.bind] at h
+    | ok c =>
+      simp only [hr, bind, Except.bind, Except.ok.injEq] at h
+      rw [← ownedIntoParts_vals s c c.length, h]
+  · cases hi : incStrong s v.ptr with
+    | error e => simp [hi, bind, Except.bind] at h
+    | ok s2 =>
+      simp only [hi, bind, Except.bind, Except.ok.injEq, Prod.mk.injEq] at h
+      rw [← h.1]
+      unfold incStrong at hi
+      split at hi
+      · split at hi
+        · split at hi
+          · simp at hi; rw [← hi]
+          · simp at hi
+        · simp at hi
+      all_goals simp at hi
+
+theorem dropFromParts_vals {s s1 : St} {v : CowVal} (h : dropFromParts s v = .ok s1) : s1.vals = s.vals := by
+  unfold dropFromParts at h
+  split at h
+  · simp at h; rw [← h]
+  · unfold freeVec at h
+    repeat' split at h
+    all_goals first
+      | (simp at h; done)
+      | (simp at h; rw [← h])
+  · unfold decStrong decArc at h
+    repeat' split at h
+    all_goals first
+      | (simp at h; done)
+      | (simp at h; rw [← h])
+
+/-! ## `clone_from` (std's provided method) and comparisons / hashes whose element operation unwinds -/
+
+/-- what `Clone::clone` does to a live value, in full: the heap functions leave the value table alone, the clone is
+    bound to the next handle and reads what the source was built from -/
+theorem stepClone_spec {s : St} (hI : Inv s) {h : Nat} {e : Entry} (he : s.vals[h]? = some (some e)) :
+    ∃ s1 v, cloneFromParts s e.val = .ok (s1, v) ∧ s1.vals = s.vals ∧ Inv (pushVal s1 v e.built) ∧
+      stepClone s h = .ok (pushVal s1 v e.built, .handle s.vals.length e.built) := by
+  obtain ⟨s1, v, hc, hI'⟩ := cloneFromParts_spec hI he
+  have hv := cloneFromParts_vals hc
+  refine ⟨s1, v, hc, hv, hI', ?_⟩
+  have hg : getVal s h = .ok e := by simp [getVal, he]
+  simp only [stepClone, hg, hc, bind, Except.bind, bindNew_ok hI', hv]
+
+theorem stepClone_dead {s : St} {h : Nat} (hg : getVal s h = .error .deadHandle) :
+    stepClone s h = .error .deadHandle := by
+  simp [stepClone, hg, bind, Except.bind]
+
+/-- `clone_from` on live values, in full: the clone of the source is made in the untouched state, then the
+    destination's old value is released by `drop_from_parts` in the state that already holds the clone -/
+theorem stepCloneFrom_spec {s : St} (hI : Inv s) {hd hs : Nat} {ed es : Entry}
+    (hed : s.vals[hd]? = some (some ed)) (hes : s.vals[hs]? = some (some es)) :
+    ∃ s1 v s2, cloneFromParts s es.val = .ok (s1, v) ∧ s1.vals = s.vals ∧ Inv (pushVal s1 v es.built) ∧
+      stepClone s hs = .ok (pushVal s1 v es.built, .handle s.vals.length es.built) ∧
+      dropFromParts (pushVal s1 v es.built) ed.val = .ok s2 ∧ Inv (killVal s2 hd) ∧
+      stepCloneFrom s hd hs = .ok (killVal s2 hd, .handle s.vals.length es.built) := by
+  obtain ⟨s1, v, hc, hv, hI', hst⟩ := stepClone_spec hI hes
+  have hed' : (pushVal s1 v es.built).vals[hd]? = some (some ed) := by
+    simp only [pushVal_vals, hv]
+    exact getElem?_append_of_some _ _ _ _ hed
+  obtain ⟨s2, hdp, hI2⟩ := dropFromParts_spec hI' hed'
+  refine ⟨s1, v, s2, hc, hv, hI', hst, hdp, hI2, ?_⟩
+  have hg : getVal s hd = .ok ed := by simp [getVal, hed]
+  simp only [stepCloneFrom, hg, hst, hdp]
+
+theorem stepCloneFrom_inv {s : St} (hI : Inv s) (hd hs : Nat) :
+    match stepCloneFrom s hd hs with
+    | .ok (s', _) => Inv s'
+    | .error e => e.isMisuse = true := by
+  rcases getVal_cases s hd with hg | ⟨ed, hed, hg⟩
+  · simp [stepCloneFrom, hg, Err.isMisuse]
+  · rcases getVal_cases s hs with hg2 | ⟨es, hes, hg2⟩
+    · simp [stepCloneFrom, hg, stepClone_dead hg2, Err.isMisuse]
+    · obtain ⟨s1, v, s2, _, _, _, _, _, hI2, hst⟩ := stepCloneFrom_spec hI hed hes
+      rw [hst]
+      exact hI2
+
+theorem stepCloneFromUnwind_inv {s : St} (hI : Inv s) (hd hs : Nat) :
+    match stepCloneFromUnwind s hd hs with
+    | .ok (s', _) => Inv s'
+    | .error e => e.isMisuse = true := by
+  rcases getVal_cases s hd with hg | ⟨ed, hed, hg⟩
+  · simp [stepCloneFromUnwind, hg, Err.isMisuse]
+  · rcases getVal_cases s hs with hg2 | ⟨es, hes, hg2⟩
+    · simp [stepCloneFromUnwind, hg, hg2, Err.isMisuse]
+    · rcases cloneFromPartsUnwind_spec hI hes with ⟨_, hu⟩ | ⟨_, hu⟩
+      · simp only [stepCloneFromUnwind, hg, hg2, hu]
+        exact hI
+      · simp only [stepCloneFromUnwind, hg, hg2, hu]
+        exact stepCloneFrom_inv hI hd hs
+
+theorem stepReadUnwind_spec {s : St} (hI : Inv s) {h1 h2 : Nat} {e1 e2 : Entry}
+    (he1 : s.vals[h1]? = some (some e1)) (he2 : s.vals[h2]? = some (some e2)) :
+    stepReadUnwind s h1 h2 = .ok (s, .unwound) := by
+  have hg1 : getVal s h1 = .ok e1 := by simp [getVal, he1]
+  have hg2 : getVal s h2 = .ok e2 := by simp [getVal, he2]
+  simp only [stepReadUnwind, hg1, hg2, read_ok (hI.ent h1 e1 he1), read_ok (hI.ent h2 e2 he2)]
+
+theorem stepReadUnwind_inv {s : St} (hI : Inv s) (h1 h2 : Nat) :
+    match stepReadUnwind s h1 h2 with
+    | .ok (s', _) => Inv s'
+    | .error e => e.isMisuse = true := by
+  rcases getVal_cases s h1 with hg | ⟨e1, he1, hg1⟩
+  · simp [stepReadUnwind, hg, Err.isMisuse]
+  · rcases getVal_cases s h2 with hg | ⟨e2, he2, hg2⟩
+    · simp [stepReadUnwind, hg1, hg, Err.isMisuse]
+    · rw [stepReadUnwind_spec hI he1 he2]
+      exact hI
+
 /-- **one step**: from a state satisfying the invariant every operation either succeeds into a state
     satisfying the invariant, or is rejected as a caller error — never a memory error. -/
 theorem step_inv {s : St} (hI : Inv s) (op : Op) :
@@ -991,48 +1126,15 @@ theorem step_inv {s : St} (hI : Inv s) (op : Op) :
   | cloneUnwind h =>
     simp only [step]
     exact stepCloneUnwind_inv hI h
+  | cloneFrom hd hs =>
+    simp only [step]
+    exact stepCloneFrom_inv hI hd hs
+  | cloneFromUnwind hd hs =>
+    simp only [step]
+    exact stepCloneFromUnwind_inv hI hd hs
+  | readUnwind h1 h2 =>
+    simp only [step]
+    exact stepReadUnwind_inv hI h1 h2
 
-
-/-! ## the heap functions never touch the caller's value table -/
-
-theorem ownedIntoParts_vals (s : St) (c : Content) (cap : Nat) : (ownedIntoParts s c cap).1.vals = s.vals := by
-  simp only [ownedIntoParts, allocVec]; split <;> rfl
-
-theorem fromOwned_vals {s s1 : St} {c : Content} {cap : Nat} {v : CowVal}
-    (h : fromOwned s c cap = .ok (s1, v)) : s1.vals = s.vals := by
-  unfold fromOwned at h
-  by_cases h1 : cap < c.length
-  · simp [h1] at h
-  · by_cases h2 : usizeMax < cap
-    · simp [h1, h2] at h
-    · by_cases h3 : cap = usizeMax
-      · simp [h1, h2, h3, ownedIntoParts] at h
-        split at h <;> simp at h
-      · simp [h1, h2, h3, ownedIntoParts] at h
-        rw [← h.1]; simp only [allocVec]; split <;> rfl
-
-theorem cloneFromParts_vals {s s1 : St} {v v' : CowVal}
-    (h : cloneFromParts s v = .ok (s1, v')) : s1.vals = s.vals := by
-  unfold cloneFromParts at h
-  split at h
-  · simp at h; rw [h.1]
-  · cases hr : readPtr s v.ptr v.len with
-    | error e => simp [hr, bind, Except.bind] at h
-    | ok c =>
-      simp only [hr, bind, Except.bind, Except.ok.injEq] at h
-      rw [← ownedIntoParts_vals s c c.length, h]
-  · cases hi : incStrong s v.ptr with
-    | error e => simp [hi, bind, Except.bind] at h
-    | ok s2 =>
-      simp only [hi, bind, Except.bind, Except.ok.injEq, Prod.mk.injEq] at h
-      rw [← h.1]
-      unfold incStrong at hi
-      split at hi
-      · split at hi
-        · split at hi
-          · simp at hi; rw [← hi]
-          · simp at hi
-        · simp at hi
-      all_goals simp at hi
 
 end MetricsVerif.Cow
